@@ -2,10 +2,12 @@
 # seedtest.sh <seed dir> <PID> [tier] — apply a seeded change to /repo, run the check, undo it.
 D="$(cd "$1" && pwd)"; PID="$2"; TIER="${3:-quick}"
 cd /verif
+cp evidence/$PID.json /tmp/seedtest_ev_$PID.json 2>/dev/null
 git -C /repo apply "$D/patch.diff" || { echo "patch does not apply"; exit 2; }
 ./check "$PID" --tier "$TIER" 2>/tmp/seedtest_err.log | tail -5
 RC=$?
 git -C /repo checkout -- .
+[ -f /tmp/seedtest_ev_$PID.json ] && mv /tmp/seedtest_ev_$PID.json evidence/$PID.json   # evidence is only ever from the clean tree
 python3 /verif/tools/prepare.py >/dev/null 2>&1   # regenerate Gen/ and glue for the clean tree
 git -C /repo status --short | head -3
 exit $RC
